@@ -72,6 +72,8 @@ def group_body(ctx, case):
     ctx.close(P(P(u, zs[0]), -zs[0]), u, TOL, "P(-z) P(z) u == u", scale=nu)
     # unitarity of each step
     ctx.close(nrm(P(u, zs[0])), nu, TOL, "P(z) preserves the norm", scale=nu)
+    for sfac in (1e-11, 1e6):
+        ctx.close(P(u * sfac, zs[0]), sfac * P(u, zs[0]), TOL, "P(z)(s u) == s P(z) u", scale=sfac * nu, name="group amplitude homogeneity")
     # magnified there-and-back: identity up to a constant phase
     m = case["m"]
     d2 = m * d1
@@ -177,7 +179,7 @@ def gauss_cases(draw, sizes=(32, 64)):
             "a": draw(st.floats(3.2, max(3.3, N / 14.0))), "m": m,
             "tsel": draw(st.integers(0, 10**6)), "sign": draw(st.sampled_from([-1.0, 1.0])),
             "ux": draw(st.sampled_from([-1.0, -0.7, -0.4, 0.0, 0.3, 0.6, 0.9])), "uy": draw(st.sampled_from([-0.9, -0.5, 0.0, 0.2, 0.45, 0.8, 1.0])),
-            "d1": draw(gen.logfloat(1e-4, 1e-1)), "wvl": draw(gen.logfloat(0.3e-6, 10e-6))}
+            "d1": draw(gen.logfloat(1e-4, 1e-1)), "wvl": draw(gen.logfloat(0.3e-6, 10e-6)), "amp": draw(st.sampled_from([1.0, 1.0, 1e-10, 1e-6, 1e5]))}
 
 
 def gauss_body(ctx, case):
@@ -198,7 +200,8 @@ def gauss_body(ctx, case):
     z = t * zR
     d2 = d1 if m == 1.0 else m * d1
     x1 = fresnel.grid(N, d1)
-    U0 = fresnel.gaussian_beam(x1, x1, w0, x0, y0, wvl, 0.0)
+    amp = case.get("amp", 1.0)
+    U0 = amp * fresnel.gaussian_beam(x1, x1, w0, x0, y0, wvl, 0.0)
     off = (abs(x0) > 0.25 * d1 and abs(y0) > 0.25 * d1 and abs(abs(x0) - abs(y0)) > 0.25 * d1)
     ctx.case(case, nontrivial=bool(off and (m != 1.0 or target in ("one", "lens"))), classes=[target, "N%d" % N, "m1" if m == 1.0 else "m_ne_1", "z_neg" if z < 0 else "z_pos", "off_axis" if off else "near_axis"])
     ran = []
@@ -208,22 +211,22 @@ def gauss_body(ctx, case):
         if prop == "angular":
             got = o.angularSpectrum(U0, wvl, d1, d2, z)
             x2 = fresnel.grid(N, d2)
-            want = fresnel.gaussian_beam(x2, x2, w0, x0, y0, wvl, z)
+            want = amp * fresnel.gaussian_beam(x2, x2, w0, x0, y0, wvl, z)
         elif prop == "one":
             got = o.oneStepFresnel(U0, wvl, d1, z)
             x2 = fresnel.grid(N, wvl * z / (N * d1))
-            want = fresnel.gaussian_beam(x2, x2, w0, x0, y0, wvl, z)
+            want = amp * fresnel.gaussian_beam(x2, x2, w0, x0, y0, wvl, z)
         elif prop == "two":
             got = np.asarray(o.twoStepFresnel(U0, wvl, d1, d2, z))
             x2 = fresnel.grid(N, d2)
-            want = fresnel.gaussian_beam(x2, x2, w0, x0, y0, wvl, z)
+            want = amp * fresnel.gaussian_beam(x2, x2, w0, x0, y0, wvl, z)
             if m != 1.0 and ctx.is_open(KF_MIRROR):
                 ctx.exclude(KF_MIRROR)
                 got = unmirror(got)
         else:
             got = o.lensAgainst(U0, wvl, d1, z)
             x2 = fresnel.grid(N, wvl * z / (N * d1))
-            want = fresnel.gaussian_focal(x2, x2, w0, x0, y0, wvl, z)
+            want = amp * fresnel.gaussian_focal(x2, x2, w0, x0, y0, wvl, z)
         ran.append(prop)
         err = nrm(np.asarray(got) - want) / nrm(want)
         ctx.residual("gaussian_" + prop, err, 1e-6)
